@@ -75,6 +75,26 @@ def _base_forced(body, bb):
     return None
 
 
+def ao_eval(body, e):
+    """value of a bool expression under the assumptions of C15.a: append_only == Some(true) and the caller does not ask
+    to switch append-only off (set_append_only != Some(false))"""
+    v = eval_under_append_only(e)
+    if v is not None:
+        return bool(v) if isinstance(v, bool) else None
+    neg = False
+    while e[0] == "un" and e[1] == "Not":
+        neg = not neg
+        e = e[2]
+    if e[0] == "call":
+        m = re.search(r"PartialEq(>)?::(eq|ne)$", e[1])
+        if m and len(e[2]) == 2:
+            for a, b in ((e[2][0], e[2][1]), (e[2][1], e[2][0])):
+                if a[0] in ("path", "proj") and a[2] and a[2][-1] == "set_append_only" and b[0] == "promoted" and b[2] and b[2][0] == "adt" and b[2][2] == "Some" and b[2][3] and b[2][3][0] == ("const", False):
+                    r = (m.group(2) == "ne")      # set_append_only != Some(false) is assumed
+                    return r != neg
+    return None
+
+
 def ao_forced(body, bb):
     f = _base_forced(body, bb)
     if f is not None:
@@ -100,7 +120,7 @@ def compute_ao_helpers(prog, rounds=3):
                 # `if <test> { true } else { false }` shapes: constant assignments reachable once the test is forced
                 if not any(_base_forced(b, bb) is not None for bb in range(len(b.blocks))):
                     continue
-                reach = pathsens.reachable_under(b, _base_forced)
+                reach = pathsens.reachable_under(b, _base_forced, eval_expr=ao_eval)
                 vals = set()
                 for bb in reach:
                     for st in b.blocks[bb]["s"]:
@@ -123,7 +143,7 @@ def compute_ao_helpers(prog, rounds=3):
             has_test = any(_base_forced(b, bb) is not None for bb in range(len(b.blocks))) or bool(_AO_ERR_SWITCH.get(b.path))
             if not has_test:
                 continue
-            reach = pathsens.reachable_under(b, ao_forced)
+            reach = pathsens.reachable_under(b, ao_forced, eval_expr=ao_eval)
             ok = True
             nret = 0
             for bb in reach:
@@ -229,7 +249,7 @@ def run(ctx, rep):
 
     def ao_filter(body, bb, es):
         if body.path not in reach_cache:
-            reach_cache[body.path] = pathsens.reachable_under(body, ao_forced)
+            reach_cache[body.path] = pathsens.reachable_under(body, ao_forced, eval_expr=ao_eval)
         return es if bb in reach_cache[body.path] else set()
 
     ung = SiteEffects(prog, cg, kinds=("RM",), site_filter=ao_filter)
@@ -308,7 +328,7 @@ def run(ctx, rep):
 
     def dry_filter(body, bb, es):
         if body.path not in dreach:
-            dreach[body.path] = pathsens.reachable_under_refined(body, dry_forced)
+            dreach[body.path] = pathsens.reachable_under_refined(body, dry_forced, eval_expr=flag_eval("dry_run", True))
         return es if bb in dreach[body.path] else set()
 
     def no_dryrun_backend(body, t, target):
@@ -360,7 +380,7 @@ def run(ctx, rep):
                 continue
             b = prog.fn(have[mth])
             F = full.site_eff.get(b.path, {})
-            rr = pathsens.reachable_under(b, dry_forced)
+            rr = pathsens.reachable_under(b, dry_forced, eval_expr=flag_eval("dry_run", True))
             # every forwarding call (to the inner backend's same-named effectful method) is unreachable under dry_run
             bad = []
             nfw = 0
